@@ -113,6 +113,10 @@ def scenarios(rng, quick):
     for (a, d) in [(0.5, 3.0), (0.5, 200.0), (4.5, 30.0), (4.5, 100.0), (12.0, 50.0), (12.0, 400.0), (30.0, 130.0)]:
         out.append((f"blackout@{a}+{d}", [(a, "net", "blackout"), (a + d, "net", "ok")], {}, a + d + 250))
     out.append(("lossy", [(10.0, "net", "lossy"), (200.0, "net", "ok")], {}, 450))
+    # a connection that never had a ping answered (pings are lost from the start, everything else gets through),
+    # then the spa becomes unreachable: it is reported all the same, and the manager heals afterwards
+    out.append(("noping-then-blackout", [(0.0, "net", "noping"), (30.0, "net", "blackout"), (500.0, "net", "ok")], {}, 800))
+    out.append(("noping-then-blackout-late", [(0.0, "net", "noping"), (100.0, "net", "blackout"), (500.0, "net", "ok")], {}, 800))
     # RF-error phases (the in.touch2 module answers everything with RFERR), also on top of a blackout
     out.append(("rferr-steady", [(15.0, "net", "rferr"), (60.0, "net", "ok")], {}, 330))
     out.append(("rferr-long", [(15.0, "net", "rferr"), (400.0, "net", "ok")], {}, 700))
@@ -177,13 +181,13 @@ def run_scenarios(rng, quick, which=None):
         if which and not which(name):
             continue
         # consecutive identical net modes are dropped (the model's NetChange toggles)
-        sc, mode = [], "ok"
+        sc, mode, prev_arg = [], "ok", "ok"
         for (t, a, arg) in sorted(script, key=lambda x: x[0]):
             if a == "net":
-                m = "bad" if arg in ("blackout", "lossy", "rferr") else "ok"
-                if m == mode and not (arg == "rferr"):
+                m = "bad" if arg in ("blackout", "lossy", "rferr", "noping") else "ok"
+                if m == mode and not (arg == "rferr") and not (prev_arg == "noping" and arg != "noping"):
                     continue
-                mode = m
+                mode, prev_arg = m, arg
             sc.append((t, a, arg))
         snap = env.REPO + "/tests/snapshots/inXM-Pump 1 running-2020-12-08 19_54_01.snapshot" if name.startswith("active:") else None
         r = LifecycleRun(rng, sc, susp=susp, rank=rng.choice(["stable", "perm", "reverse"]), horizon=horizon, snapshot=snap,
